@@ -546,7 +546,9 @@ func vfC19Multipart(r vfC19Resp) ([][]byte, error) {
 	}
 }
 
-var vfC19ExpValues = []*vfC19Val{vfC19Num("4102444800"), vfC19Str("4102444800"), vfC19Str("2100-01-01T00:00:00Z"), vfC19Num("4102444800.0")}
+// valid expiry values only (base.ReflectExpiry: integer literal <= MaxUint32, numeric string that fits
+// int32, RFC3339 string); all far in the future
+var vfC19ExpValues = []*vfC19Val{vfC19Num("4102444800"), vfC19Str("2000000000"), vfC19Str("2100-01-01T00:00:00Z"), vfC19Num("4294967295")}
 
 // vfC19Inconclusive converts a harness wait that expired into a skipped case.
 func vfC19Inconclusive(rt *rapid.T, rec *kit.Rec) {
